@@ -210,6 +210,12 @@ V1_NAMES = ["device", "attestation", "ui"]
 V2_NAMES = ["quote", "attestation", "quoting_enclave"]
 
 
+def smax():
+    """Signer kinds per element: all 8, except in the version-2 three-element partitions (thorough tier), where 'missing' and
+    'non-string' are left to the two-element partitions (each path there decodes three 436-byte quotes twice)."""
+    return 5 if part() >= 9 else 7
+
+
 def element(version, i, name_kind, signer_kind, n):
     names = V1_NAMES if version == 1 else V2_NAMES
     root = "root" if version == 1 else "sgx_root"
@@ -252,7 +258,7 @@ def element(version, i, name_kind, signer_kind, n):
                       (4, dict(s0=3, s1=0, s2=1, nk=0, verdict=True))])
 def graph(s0: int, s1: int, s2: int, nk: int, verdict: bool) -> bool:
     """
-    pre: 0 <= s0 <= 7 and 0 <= s1 <= 7 and 0 <= s2 <= 7
+    pre: 0 <= s0 <= smax() and 0 <= s1 <= smax() and 0 <= s2 <= smax()
     pre: 0 <= nk <= 5
     post: _
     """
